@@ -18,7 +18,7 @@ only absence of panics is claimed there.
 A counterexample is replayed through SQL on the real build: `select substring(s from <start> for <length>)` on a
 string of n distinct characters, against the positions above computed in python."""
 import json, time
-from z3 import BitVec, BitVecVal, And, Or, Not, If, ULT, ULE, UGE, ZeroExt, SignExt, BoolVal, Solver, sat, unsat
+from z3 import BitVec, BitVecVal, And, Or, Not, If, ULT, ULE, UGE, ZeroExt, SignExt, Extract, BoolVal, Solver, sat, unsat
 from vlib.common import Inconclusive, rl
 from . import engine
 from .engine import make_vm, check
@@ -174,6 +174,7 @@ def run(rep, thorough):
     rowwise_probe(rep)
     like_probe(rep, thorough)
     nq += month_days(rep)
+    nq += date_add_logic(rep, thorough)
     date_interval_probe(rep)
     rep.solver(time.time() - t0, nq)
     rep.cov['functions_encoded'] = list(rep.cov.get('functions_encoded', [])) + ['array::ops::substring::{closure#0} (from MIR)']
@@ -470,3 +471,184 @@ def date_interval_probe(rep):
     what = 'DATE +/- INTERVAL: %d wrong results, first: %s -> %s, calendar says %s' % (len(bad), q, got, exp)
     outc = rep.counterexample('probe:date-add-interval', what[:500], {'stmts': stmts[:2] + [q], 'wrong': bad[:20]}, True)
     rep.obligation(outc == 'known')
+
+
+# ------------------------------------------------------------------------------------------------ DATE + INTERVAL, month logic
+_DATES = {}
+
+
+def _nd(tag):
+    """A fresh chrono NaiveDate known by its civil fields (year, month, day), constrained to be a real date."""
+    k = len(_DATES.setdefault('all', []))
+    y, mo, d = BitVec('%s_y%d' % (tag, k), 32), BitVec('%s_m%d' % (tag, k), 32), BitVec('%s_d%d' % (tag, k), 32)
+    _DATES['all'].append((y, mo, d))
+    return Opaque('NaiveDate', {'y': y, 'm': mo, 'd': d})
+
+
+def _civil_ok(y, mo, d, ybound=262000):
+    from z3 import SRem
+    leap = And(SRem(y, 4) == 0, Or(SRem(y, 100) != 0, SRem(y, 400) == 0))
+    mlen = If(Or(mo == 4, mo == 6, mo == 9, mo == 11), BitVecVal(30, 32), If(mo == 2, If(leap, BitVecVal(29, 32), BitVecVal(28, 32)), BitVecVal(31, 32)))
+    return And(y >= -ybound, y <= ybound, mo >= 1, mo <= 12, d >= 1, d <= mlen), mlen
+
+
+@native(r'^(chrono::)?(naive::)?(date::)?NaiveDate::from_num_days_from_ce_opt$', 'chrono NaiveDate::from_num_days_from_ce_opt: Some(a real calendar date) -- which one is left open (chrono is outside the interpreter)')
+def _nd_from_days(vm, m, callee, args):
+    from .vm import Enum
+    nd = _nd('src')
+    ok, _ = _civil_ok(nd.data['y'], nd.data['m'], nd.data['d'], 100000)
+    m.pc.append(ok)
+    return Enum('Option', 'Some', [nd])
+
+
+@native(r'^<(chrono::)?(naive::)?(date::)?NaiveDate as (chrono::)?Datelike>::(year|month|day)$', 'Datelike::{year, month, day}: the civil fields of the date')
+def _nd_field(vm, m, callee, args):
+    nd = dv(vm, args[0])
+    k = callee.rsplit('::', 1)[1]
+    return BV(nd.data[{'year': 'y', 'month': 'm', 'day': 'd'}[k]], k == 'year')
+
+
+@native(r'^(chrono::)?(naive::)?(date::)?NaiveDate::from_ymd_opt$', 'chrono NaiveDate::from_ymd_opt(y, m, d): Some(that date) when it exists, None otherwise')
+def _nd_from_ymd(vm, m, callee, args):
+    from .vm import Enum, SymEnum
+    y, mo, d = dv(vm, args[0]).v, dv(vm, args[1]).v, dv(vm, args[2]).v
+    ok, _ = _civil_ok(y, mo, d)
+    return SymEnum('Option', [(ok, Enum('Option', 'Some', [Opaque('NaiveDate', {'y': y, 'm': mo, 'd': d})])), (Not(ok), Enum('Option', 'None'))])
+
+
+@native(r'^<(chrono::)?(naive::)?(date::)?NaiveDate as (chrono::)?Datelike>::num_days_from_ce$', 'Datelike::num_days_from_ce: some day number (left open)')
+def _nd_days(vm, m, callee, args):
+    nd = dv(vm, args[0])
+    r = _civil_to_days()(nd.data['y'], nd.data['m'], nd.data['d'])
+    m.pc.append(And(r >= -(1 << 28), r <= (1 << 28)))      # |year| <= 262143 in chrono: the day number is far from the i32 limits
+    return BV(r, True)
+
+
+def _civil_to_days():
+    """Days from the common era of a civil date: uninterpreted (chrono's arithmetic is outside); two results are equal for
+    every interpretation only when the dates are the same."""
+    from z3 import Function, BitVecSort
+    return Function('civil_to_days', BitVecSort(32), BitVecSort(32), BitVecSort(32), BitVecSort(32))
+
+
+_IV = {}
+
+
+@native(r'^interval::Interval::(years|months|days)$', 'Interval::{years, months, days}: the whole years, the remaining months (|months| < 12, same sign) and the days of the interval (the accessors themselves are decided from MIR under C19)')
+def _iv_field(vm, m, callee, args):
+    return BV(_IV[callee.rsplit('::', 1)[1]], True)
+
+
+def date_add_task(task):
+    """Worker: one source month, all enumerated interval-month remainders.  Returns plain dicts."""
+    import os
+    m0, rems, mirpath = task
+    os.environ['VERIF_MIR_OC'] = mirpath
+    res = []
+    try:
+        vm = make_vm(True)
+        c = vm.prog.find(r'^date::<impl at src/types/date\.rs:\d+:\d+: \d+:\d+>::add$')
+        if len(c) != 1:
+            return [{'inconclusive': 'Date::add not found (%d candidates)' % len(c)}]
+    except (Inconclusive, Unsupported, MirSyntax, KeyError) as ex:
+        return [{'inconclusive': str(ex)}]
+    from .vm import Struct
+    for rem in rems:
+        _DATES.clear()
+        d0, yrs, idays = BitVec('da_date', 32), BitVec('da_years', 32), BitVec('da_days', 32)
+        _IV.update(years=yrs, months=BitVecVal(rem, 32), days=idays)
+        sign = [yrs >= 0] if rem > 0 else ([yrs <= 0] if rem < 0 else [])      # years and months of one interval agree in sign
+        pc0 = [yrs >= -80000, yrs <= 80000, idays >= -(1 << 20), idays <= (1 << 20), d0 >= -(1 << 26), d0 <= (1 << 26)] + sign
+        try:
+            outs = vm.run(c[0], [Struct('Date', [BV(d0, True)]), Opaque('Interval')], pc=tuple(pc0))
+        except (Unsupported, MirSyntax, KeyError, AttributeError, IndexError) as ex:
+            return res + [{'inconclusive': '%s: %s' % (type(ex).__name__, str(ex)[:300])}]
+        y, mo, d = _DATES['all'][0]
+        carry, mi = divmod(m0 - 1 + rem, 12)
+        Y, M = y + yrs + carry, BitVecVal(mi + 1, 32)
+        _, mlen = _civil_ok(Y, M, BitVecVal(1, 32))
+        D = If(d < mlen, d, mlen)
+        for o in outs:
+            pc = list(o.pc) + [mo == m0]
+            if engine.satisfiable(pc, timeout=20000)[0] == 'unsat':
+                continue
+            if o.kind != 'ret':
+                st, mdl = 'sat', engine.satisfiable(pc)[1]
+                kind = 'panics'
+            else:
+                got = vm.deref_value(o.value.fields[0]).v
+                app = [a_ for a_ in (got.children() + [got]) if a_.decl().name() == 'civil_to_days']
+                if not app:
+                    res.append({'inconclusive': 'unexpected result term'})
+                    continue
+                by, bm, bd = app[0].children()
+                st, mdl = check(pc, And(by == Y, bm == M, bd == D))
+                kind = 'wrong-date'
+            r = {'m0': m0, 'rem': rem, 'kind': kind, 'verdict': st if (st != 'sat' or mdl is not None) else 'unknown'}
+            if st == 'sat' and mdl is not None:
+                ev = lambda e: sg(mdl.eval(e, model_completion=True).as_long(), 32)
+                r['witness'] = {'date_after_days': [ev(y), m0, ev(d)], 'interval_months': ev(yrs) * 12 + rem, 'path': str(o.value)[:160] if o.kind != 'ret' else None}
+            res.append(r)
+    return res
+
+
+def date_add_logic(rep, thorough=False):
+    """`Date + Interval` from MIR with chrono abstracted to civil fields: the date reached after adding the interval's
+    days is an arbitrary real date (y, m, d); the obligation is on what is handed to `NaiveDate::from_ymd_opt` (read off
+    the result term): year and month are those of month number y*12 + (m-1) + interval months, the day is
+    min(d, length of that month), and the call never fails or panics.  The source month and the interval's remaining
+    months are enumerated (12 x 23; quick: 12 x 9), the year, the day, the interval's years and days are symbolic
+    (|year| <= 100000, |interval years| <= 80000)."""
+    import multiprocessing as mp
+    desc = 'DATE + INTERVAL: month / year arithmetic and end-of-month clamp'
+    rems = list(range(-11, 12)) if thorough else [-11, -3, -2, -1, 0, 1, 2, 3, 11]
+    try:
+        path = engine.program(True).path
+    except Inconclusive as ex:
+        rep.fail_inconclusive('%s: %s' % (desc, ex))
+        return 0
+    with mp.Pool(12) as pool:
+        results = pool.map(date_add_task, [(m0, rems, path) for m0 in range(1, 13)], chunksize=1)
+    rep.cov['programs'] += 1
+    nq = 0
+    for rs in results:
+        for r in rs:
+            if 'inconclusive' in r:
+                rep.fail_inconclusive('%s: %s' % (desc, r['inconclusive']))
+                continue
+            nq += 1
+            if r['verdict'] == 'unsat':
+                rep.obligation(True)
+                continue
+            if r['verdict'] != 'sat':
+                rep.obligation(False)
+                rep.fail_inconclusive('solver unknown: %s (month %d, %+d months)' % (desc, r['m0'], r['rem']))
+                continue
+            w = r['witness']
+            rp = date_add_replay(w)
+            what = '%s: %s -- from %04d-%02d-%02d with %d months; end to end: %s' % (desc, r['kind'], w['date_after_days'][0], w['date_after_days'][1], w['date_after_days'][2], w['interval_months'], json.dumps(rp['how'])[:260])
+            out = rep.counterexample('kernel:date-add-interval:%s' % r['kind'], what[:500], {'witness': w, 'replay': rp}, rp['reproduced'])
+            rep.obligation(out == 'known')
+    rep.sample({'kernel': desc, 'obligation': 'arguments of from_ymd_opt', 'verdict': 'year / month / clamped day are the calendar ones for every date with |year| <= 100000 and every interval of up to 80000 years and the enumerated months'}, cap=1)
+    rep.cov['functions_encoded'] = list(rep.cov.get('functions_encoded', [])) + ['<Date as Add<Interval>>::add (from MIR; chrono abstracted to civil fields, Interval accessors as contracts)']
+    return nq
+
+
+def date_add_replay(w):
+    """Through SQL when the witness is expressible: a date literal (years 1..9999) and a month interval."""
+    import datetime
+    y, mo, d = w['date_after_days']
+    n = w['interval_months']
+    # bring the year into the literal range keeping it modulo 400 (the calendar repeats every 400 years)
+    y2 = y if 1 <= y <= 9000 else 2000 + (y % 400)
+    try:
+        src = datetime.date(y2, mo, d)
+        n2 = n if abs(n) <= 12000 else (n % 4800 if n > 0 else -((-n) % 4800))
+        exp = add_months(src, n2)
+    except (ValueError, OverflowError):
+        return {'reproduced': None, 'how': {'note': 'no literal for this date / interval'}}
+    stmts = ["select date '%s' %s interval '%d' month" % (src.isoformat(), '+' if n2 >= 0 else '-', abs(n2))]
+    out, rc, err = rl('sql', {'engine': 'mem', 'stmts': stmts})
+    o = out[0] if out else {}
+    got = o['rows'][0][0] if o.get('ok') and o.get('rows') and not o.get('panicked') else ('panic' if o.get('panicked') else o.get('err'))
+    return {'reproduced': got != exp.isoformat(), 'how': {'stmts': stmts, 'engine': got, 'expected': exp.isoformat()}}
